@@ -86,7 +86,15 @@ func (in *interpreter) fmtArg(fr *frame, flags string, verb byte, a value, mode 
 		case 'v', 's':
 			return x
 		case 'q':
+			if mode.lenient {
+				if _, conc := normStr(x).(string); !conc {
+					return toSymstr("\"<symbolic>\"")
+				}
+			}
 			return quoteSym(x)
+		}
+		if mode.lenient {
+			return toSymstr("<symbolic>")
 		}
 		panic(engineAbort{"unsupported: fmt verb %" + string(verb) + " on a symbolic string"})
 	case sym:
